@@ -357,6 +357,16 @@ def iter_incs(nodes):
                 yield x
 
 
+def iter_incs_kind(nodes, kind):
+    """(include node, kind of the enclosing block)"""
+    for n in nodes:
+        if n[0] == "inc":
+            yield n, kind
+        elif n[0] == "block":
+            for x in iter_incs_kind(n[2], n[1]):
+                yield x
+
+
 def chain_tree(depth, form, root_dir, quote='"', nl="\n"):
     """Systematic family: root -> c1 -> ... -> c<depth>, a keyword line in the first and the last file."""
     t = Tree()
@@ -1057,6 +1067,11 @@ def _run(ctx):
                     tgt = os.path.basename(t.files[n[1]]["path"])
                     if n[2]["form"] != "rel" or not re.fullmatch(r"[A-Za-z0-9_]+\.map", inc_name(t, n[1], n[2])):
                         n[2]["quote"] = '"'
+        # inside a string-pair block (METADATA) only quoted names: a bare word there is not even a string pair, and
+        # bare names are not MapServer syntax in the first place
+        for n, kind in iter_incs_kind(t.files[0]["nodes"], "TOP"):
+            if kind == "METADATA" and n[2]["quote"] == "":
+                n[2]["quote"] = '"'
         ctx.note_case("noexp:" + json.dumps(render(t).get(t.files[0]["path"])), nontrivial=True)
         for fp, what in noexpand_check(impl, t, use_api=(i < n_noexp_api), front=i % 3):
             ctx.violation(fp, what, {"kind": "noexpand", "root_text": render(t)[t.files[0]["path"]], "front": i % 3})
